@@ -822,6 +822,10 @@ class Interp:
             self.block(s.orelse, env)
             return
         # invariant-carrying loop over a sequence of symbolic length
+        if isinstance(it, LazyGen):
+            m = it.as_mapped(ctx)
+            if m is not None:
+                it = m
         if not hasattr(it, 'seq_len'):
             raise Unsupported('for loop #%d: iterable %r has no symbolic sequence interface' % (k, it))
         label = lc.label or 'loop%d' % k
@@ -1079,6 +1083,15 @@ class Interp:
         return Closure(self, n, env)
 
     def ex_JoinedStr(self, n, env):
+        hook = getattr(self.ctx, 'fstring_hook', None)
+        if hook is not None:
+            parts = []
+            for v in n.values:
+                if isinstance(v, ast.Constant):
+                    parts.append(v.value)
+                else:
+                    parts.append(('value', self.expr(v.value, env)))
+            return hook(parts)
         self.ctx.dropped.add('f-string')
         return SOpaque('str')
 
